@@ -56,15 +56,19 @@ TToAscii ==
   /\ IsEvent("toascii")
   /\ LET inp == Ev["in"]
          r == DomainToAscii(inp)
+         \* classification only (known finding D10): what the per-label reading of the Bidi rule would give
+         rr == DomainToAsciiX(inp, FALSE)
+         relaxed == ~rr.unspec /\ rr.ok = Ev.ok /\ (rr.ok => rr.s = Ev.a)
          d1 == IF r.unspec THEN 0
                ELSE IF r.ok = Ev.ok /\ (IF r.ok THEN r.s = Ev.a /\ Ev.a2 = Ev.a ELSE Ev.a = <<>>) THEN 0
                ELSE Diag([l |-> l, who |-> "a", kind |-> "toascii", props |-> << "C06" >>,
-                          expok |-> r.ok, exp |-> r.s, gotok |-> Ev.ok, got |-> Ev.a])
+                          expok |-> r.ok, exp |-> r.s, gotok |-> Ev.ok, got |-> Ev.a, relaxed |-> relaxed])
          \* ToUnicode of the (specified) result decodes exactly the accepted labels
          fu == IF r.unspec \/ ~r.ok \/ ~Ev.ok THEN [unspec |-> TRUE, s |-> <<>>] ELSE FragToUnicode(r.s)
          d2 == IF fu.unspec \/ fu.s = Ev.u THEN 0
                ELSE Diag([l |-> l, who |-> "a", kind |-> "tounicode", props |-> << "C06" >>,
-                          exp |-> fu.s, got |-> Ev.u])
+                          exp |-> fu.s, got |-> Ev.u,
+                          relaxed |-> LET fr == FragToUnicodeX(r.s, FALSE) IN ~fr.unspec /\ fr.s = Ev.u])
          \* the C API returns what the C++ API returns
          d3 == IF Ev.ca = Ev.a /\ Ev.cu = Ev.u THEN 0
                ELSE Diag([l |-> l, who |-> "c", kind |-> "capi", props |-> << "C17" >>,
@@ -75,7 +79,8 @@ TToAscii ==
          d4 == IF hp.unspec THEN 0
                ELSE IF hp.ok = Ev.host.v /\ (hp.ok => hp.host.s = Ev.host.s) THEN 0
                ELSE Diag([l |-> l, who |-> "a", kind |-> "urlhost", props |-> << "C06" >>,
-                          expok |-> hp.ok, exp |-> hp.host.s, gotok |-> Ev.host.v, got |-> Ev.host.s])
+                          expok |-> hp.ok, exp |-> hp.host.s, gotok |-> Ev.host.v, got |-> Ev.host.s,
+                          relaxed |-> relaxed /\ Ev.host.v = Ev.ok /\ (Ev.ok => Ev.host.s = Ev.a)])
      IN /\ ndiag' = ndiag + d1 + d2 + d3 + d4
         /\ nunspec' = nunspec + (IF r.unspec THEN 1 ELSE 0)
   /\ l' = l + 1
